@@ -6,6 +6,7 @@ import (
 	"fmt"
 	"math"
 	"os"
+	"sort"
 	"strings"
 	"testing"
 
@@ -34,7 +35,9 @@ func TestMain(m *testing.M) {
 			"SUM/AVG over FLOAT columns are generated only where every value is a multiple of 0.25 below 1e12 (sums are exact in any order)",
 			"with LIMIT/OFFSET and an ORDER BY that is not total only the row count, the sortedness and the multiset of ORDER BY keys are compared; without ORDER BY only the row count",
 			"HISTORY OF is evaluated through the primary index only (the engine rejects other indexes by design); HISTORY OF and period queries are not evaluated inside the open transaction (revisions and transaction ids of uncommitted entries are not defined by the documentation)",
-			"not generated: window functions, CTEs, FULL/CROSS/LATERAL/NATURAL joins, EXCEPT/INTERSECT, DIFF OF, time-instant periods, views, JSON path selectors, functions, CASE; concurrency between sessions (C12/C13)",
+			"not generated: window functions, CTEs, FULL/CROSS/LATERAL/NATURAL joins, EXCEPT/INTERSECT, DIFF OF, time-instant periods, views, JSON path selectors, functions, CASE, AUTO_INCREMENT keys, UPDATE/DELETE with LIMIT, parameters inside subqueries (EXISTS and scalar subqueries are resolved without them); concurrency between sessions (C12/C13)",
+			"USE INDEX ON (primary key) is a hint the planner overrides when the WHERE clause has an equality on the leading column of a secondary index; the check therefore never relies on a forced primary key to avoid an index, it uses the twin table",
+			"while known findings K11/K12 are listed (stale / shadowed secondary-index entries inside a transaction), a transaction that has written to a table with secondary indexes issues no further UPDATE/DELETE on it, and in-transaction queries reach such a table through the twin only (both counted)",
 			"the naive executor covers single-table and inner/left-join queries with WHERE, DISTINCT, GROUP BY, COUNT/MIN/MAX/integer SUM, HAVING; subqueries, UNION, history, AVG and float SUM are compared differentially only",
 		},
 		Probes: []vk.Probe{
@@ -723,7 +726,7 @@ func TestPlanIndependence(t *testing.T) {
 				outs := e.evalQuery("inside the open transaction", q, vars[qi], tx.Query, func(v variant) bool {
 					// known finding K11: secondary-index entries of rows this transaction changed are stale
 					// known finding K12: rows of this transaction that agree on an index key shadow each other
-					for tn := range v.mains {
+					for _, tn := range sortedKeys(v.mains) {
 						if e.dirty[tn] && vk.Excluded(kfInTxIndex) {
 							vk.CountExcluded(kfInTxIndex)
 							return true
@@ -848,6 +851,15 @@ func TestPlanIndependence(t *testing.T) {
 			c.NonTrivial()
 		}
 	})
+}
+
+func sortedKeys(m map[string]bool) []string {
+	out := make([]string, 0, len(m))
+	for k := range m {
+		out = append(out, k)
+	}
+	sort.Strings(out)
+	return out
 }
 
 func nullOrDupInIndexedColumn(t *sqlgen.Table, created []sqlgen.Index, rows [][]sqlgen.Value) bool {
